@@ -154,4 +154,53 @@ example : (exec { demo with evs := [.handle 7, .start, .dialOk 0, .connackOk fal
             .cancelCtx, .waitElapsed, .dialOk 10, .connackOk true [(6, 0), (8, 1)], .inbound 9 0, .handle 3, .inbound 10 1] }).handled
     = (exec demo).handled := by decide
 
+/-! ### a dialer that ignores its context (`Cfg.deafDialer`, e.g. `NoContextDialer`)
+
+  All theorems above hold for every configuration, `deafDialer = true` included; none of their statements
+  had to change. What is new with such a dialer: a transport can arrive after the context of the first
+  Connect was cancelled. The connection object created for it is the client's current one and carries the
+  registered handler (`handler_current`, as for every connection), but it is closed from the start and the
+  reconnect loop is gone: no event can hand anything over on it (`handOver` is `[]` outside `.up` /
+  `.connackGate`, `handled_exact`). -/
+
+/-- a dial result never hands anything over by itself, late or not -/
+theorem dial_hands_over_nothing (s : Script) (i : Nat) :
+    (step (exec s) (.dialOk i)).handled = (exec s).handled ∧
+    (step (exec s) .dialFail).handled = (exec s).handled := by
+  rw [handled_exact, handled_exact]; simp [handOver]
+
+/-- once the loop has exited nothing is handed over any more, whatever connection object is current -/
+theorem exited_hands_over_nothing (s : Script) (e : Ev) (h : (exec s).phase = .exited) :
+    (step (exec s) e).handled = (exec s).handled := by
+  rw [handled_exact]
+  cases e <;> simp [handOver, h]
+
+/-- cancellation during the first dial, then the transport arrives: one connection object with the
+    registered handler, carrying CONNECT only, closed; the loop has exited, Connect returned the context's
+    error; a CONNACK or a message arriving afterwards is not served -/
+example : let s : Script :=
+      { cfg := { deafDialer := true },
+        evs := [.handle 7, .start, .cancelCtx, .dialOk 0, .connackOk false [(5, 1)], .inbound 6 0] }
+    (exec s).handled = [] ∧ (exec s).phase = .exited ∧ (exec s).connectErr = true ∧
+    (exec s).connectReturned = none ∧ (exec s).cli = some 0 ∧ (exec s).conns.length = 1 ∧
+    (getConn (exec s) 0).handler = some 7 ∧ (getConn (exec s) 0).alive = false ∧
+    (getConn (exec s) 0).pkts = [(.connect, .sent .ok)] ∧ (exec s).dials = 1 ∧ (exec s).waits = [] := by decide
+
+/-- … and Handle afterwards still reaches that (current) connection object -/
+example : let s : Script :=
+      { cfg := { deafDialer := true }, evs := [.handle 7, .start, .cancelCtx, .dialOk 0, .handle 3] }
+    (getConn (exec s) 0).handler = some 3 ∧ (exec s).handler = some 3 := by decide
+
+/-- the same with a failing dial: no connection object, the loop has exited without backing off -/
+example : let s : Script :=
+      { cfg := { deafDialer := true },
+        evs := [.handle 7, .start, .cancelCtx, .dialFail, .waitElapsed, .dialOk 0, .inbound 6 0] }
+    (exec s).handled = [] ∧ (exec s).phase = .exited ∧ (exec s).connectErr = true ∧
+    (exec s).conns.length = 0 ∧ (exec s).cli = none ∧ (exec s).dials = 1 ∧ (exec s).waits = [] := by decide
+
+/-- with a dialer that honours its context the same events end at the cancellation: the late transport
+    is ignored -/
+example : let s : Script := { evs := [.handle 7, .start, .cancelCtx, .dialOk 0] }
+    (exec s).phase = .exited ∧ (exec s).connectErr = true ∧ (exec s).conns.length = 0 := by decide
+
 end Mqtt.C17
